@@ -317,6 +317,22 @@ type Persons []Person
 type PtrPersons []*Person
 type Bytes []byte
 
+// Level is a defined string type with its own driver value; Levels a slice of it (the
+// elements of $Levels[:] must go through Level.Value); Graded has members of both kinds
+// and of a named byte-slice type.
+type Level string
+
+func (l Level) Value() (driver.Value, error) { return "L:" + string(l), nil }
+
+type Levels []Level
+
+type Graded struct {
+	ID   int    `db:"id"`
+	Lv   Level  `db:"lv"`
+	Blob Bytes  `db:"blob"`
+	PLv  *Level `db:"plv"`
+}
+
 // Entry describes a zoo type.
 type Entry struct {
 	Name string
@@ -387,6 +403,8 @@ var Entries = []Entry{
 	e(Persons{}, "slice", false),
 	e(PtrPersons{}, "slice", false),
 	e(Bytes{}, "slice", false),
+	e(Levels{}, "slice", false),
+	e(Graded{}, "struct", false, "id", "lv", "blob", "plv"),
 }
 
 // Shadows are types with the same name as a zoo type but from another package.
